@@ -285,6 +285,27 @@ pub fn run(ctx: &Ctx) -> Report {
         );
         st
     });
+    // many matchers before the printers: identifier and tag numbers beyond 255
+    let mut st = Stats::new();
+    for n in [0usize, 100, 126, 127, 128, 130, 200] {
+        for acts in [vec![Act::Print0], vec![Act::FPrint("a".into()), Act::Print0], vec![Act::Print, Act::Printf(vec![FEl::F(Fld::Basename), FEl::E(Esc::Newline)])], vec![Act::FPrint("a".into()), Act::FPrint("b".into()), Act::FPrint0("a".into())]] {
+            let mut e = E::T(Tst::True);
+            for i in 0..n {
+                e = E::or(E::T(Tst::Name(format!("m{i}"))), e);
+            }
+            for a in &acts {
+                e = E::and(e, E::A(a.clone()));
+            }
+            for assignment in [vec![vec![0u8], vec![1]], vec![vec![0, 1], vec![2], vec![3]]] {
+                let c = Case { tree: e.clone(), threads: None, assignment };
+                let (v, s, t) = judge(&c);
+                states.fetch_add(s, std::sync::atomic::Ordering::Relaxed);
+                transitions.fetch_add(t, std::sync::atomic::Ordering::Relaxed);
+                st.record(&v, stable_hash(&c), true, || json!({"kind": "schedule-space", "matchers_before": n, "actions": format!("{acts:?}"), "threads": c.assignment, "tree": term::encode_expr(&c.tree)}));
+            }
+        }
+    }
+    total.merge(st);
     total.extra.insert("states".into(), json!(states.load(std::sync::atomic::Ordering::Relaxed)));
     total.extra.insert("transitions".into(), json!(transitions.load(std::sync::atomic::Ordering::Relaxed)));
     Report {
